@@ -22,6 +22,7 @@ import (
 type vfConnDouble struct {
 	mu     sync.Mutex
 	fail   bool
+	part   int // a failing write first accepts this many bytes (0: none)
 	writes int
 	data   []byte
 	closed bool
@@ -34,6 +35,16 @@ func (c *vfConnDouble) Write(b []byte) (int, error) {
 	defer c.mu.Unlock()
 	c.writes++
 	if c.fail || c.closed {
+		if c.part > 0 && !c.closed {
+			n := c.part
+			if n >= len(b) {
+				n = len(b) - 1
+			}
+			if n > 0 {
+				c.data = append(c.data, b[:n]...)
+				return n, errors.New("scripted write failure after a partial write")
+			}
+		}
 		return 0, errors.New("scripted write failure")
 	}
 	c.data = append(c.data, b...)
@@ -77,6 +88,7 @@ type vfFoPattern struct {
 	Prim string `json:"prim"`
 	Path string `json:"path"`
 	Msgs int    `json:"msgs"`
+	Part bool   `json:"part"`
 }
 
 func TestVfFailover(t *testing.T) {
@@ -105,7 +117,11 @@ func TestVfFailover(t *testing.T) {
 				if kind == "backend" && p.Prim != "none" {
 					continue
 				}
-				id := fmt.Sprintf("%s-%s-%s-%d.%d", kind, p.Prim, p.Path, p.Msgs, rep)
+				id := fmt.Sprintf("%s-%s-%s-%d-part%v.%d", kind, p.Prim, p.Path, p.Msgs, p.Part, rep)
+				part := 0
+				if p.Part {
+					part = []int{1, 40, 57, 100000}[(ncase+rep)%4]
+				}
 				// the destination
 				port := 0
 				var closer func()
@@ -132,7 +148,7 @@ func TestVfFailover(t *testing.T) {
 				raddr := &net.TCPAddr{IP: net.ParseIP(ip), Port: port}
 				var primD, staleD *vfConnDouble
 				if p.Path == "stale" {
-					staleD = &vfConnDouble{fail: true, raddr: raddr}
+					staleD = &vfConnDouble{fail: true, part: part, raddr: raddr}
 				}
 				var send func(m *Message) error
 				connState := "none"
@@ -143,7 +159,7 @@ func TestVfFailover(t *testing.T) {
 				if kind == "client" {
 					var prim ClientTransport
 					if p.Prim != "none" {
-						primD = &vfConnDouble{fail: p.Prim == "failing", raddr: &net.TCPAddr{IP: net.ParseIP(g.ip("10.0.5.5")), Port: 40001}}
+						primD = &vfConnDouble{fail: p.Prim == "failing", part: part, raddr: &net.TCPAddr{IP: net.ParseIP(g.ip("10.0.5.5")), Port: 40001}}
 						pt, _ := NewTCPClientTransportWithConn(primD)
 						prim = pt
 					}
@@ -223,7 +239,7 @@ func TestVfFailover(t *testing.T) {
 					if staleD != nil {
 						sw = staleD.writes - staleBefore
 					}
-					tr.Emit(vfM{"ev": "send", "case": id, "cls": fmt.Sprintf("kind=%s prim=%s path=%s k=%d", kind, p.Prim, p.Path, k), "k": k, "ok": err == nil,
+					tr.Emit(vfM{"ev": "send", "case": id, "cls": fmt.Sprintf("kind=%s prim=%s path=%s partial-write=%v k=%d", kind, p.Prim, p.Path, p.Part, k), "k": k, "ok": err == nil,
 						"on": on, "dialed": dialed, "prim_writes": pw, "stale_writes": sw, "elapsed_ms": int(el / time.Millisecond), "panic": pm})
 				}
 				if closer != nil {
